@@ -749,6 +749,13 @@ def worker(job):
 
 def family_for(prop, tier):
     fam = bfamily.family(tier)
+    if prop in ('C09', 'C10'):
+        from . import bfamily3
+        fam = fam + bfamily3.layout_family(tier)
+    if prop == 'C16':
+        from . import bfamily3
+        keep = [t for i, t in enumerate(fam) if (tier == 'thorough' or i % 5 == 0 or t.tag.startswith(('c:', 'p:', 'o:ok_Little')))]
+        fam = keep + bfamily3.layout_family(tier)
     if prop in ('C13', 'C14'):
         from . import bfamily2
         fam = bfamily2.generator_family(tier) + [t for t in fam if (t.wellformed and not t.faults) or t.tag in ('p:snake_collide',)]
@@ -873,3 +880,4 @@ def write_known(prop, bysig, tier):
 
 
 EXTRA = {}
+from . import checks_b2  # noqa: E402  (registers C09, C10, C16, C08)
